@@ -6,6 +6,7 @@ import re
 
 from sa import cfg as cfgmod
 from sa import absint
+from sa import grammar
 from sa import model
 from sa import regexlang
 from sa.model import AnalysisError
@@ -372,7 +373,23 @@ def check_keywords(repo, rep):
     if ok:
         table = {'and': ('and', 'BINARY_LEFT_ASSOCIATIVE', 'OP_7'),
                  'not': ('not', 'PREFIX_UNARY', 'OP_3')}
-        cases = [('and', 'OP_7', 'and'), ('not', 'OP_3', 'not'),
+        t_and, t_not = 'OP_7', 'OP_3'
+        yops = grammar.abstract_operator_table(repo)
+        if yops is not None and isinstance(yops.attrs.get('operators'),
+                                           dict):
+            # the table the factory really builds (its records may be
+            # tuples or objects with named fields)
+            real = yops.attrs['operators']
+
+            def lexem(rec):
+                names = [x for x in grammar.record_items(rec) or []
+                         if isinstance(x, str) and x.startswith('OP_')]
+                return names[0] if len(names) == 1 else None
+            if 'and' in real and 'not' in real and lexem(
+                    real['and']) and lexem(real['not']):
+                table = {'and': real['and'], 'not': real['not']}
+                t_and, t_not = lexem(real['and']), lexem(real['not'])
+        cases = [('and', t_and, 'and'), ('not', t_not, 'not'),
                  ('foo', 'KEYWORD_STRING', 'foo'),
                  ('truex', 'KEYWORD_STRING', 'truex'),
                  ('_x', 'KEYWORD_STRING', '_x'),
@@ -400,8 +417,9 @@ def check_keywords(repo, rep):
             # table (a word table, ...) is derived here the same way
             init = mod.functions.get('Lexer.__init__')
             if init is not None and len(init.params()) == 2:
-                yo = absint.Obj('yaql_operators', operators=dict(table),
-                                name_value_op='=>')
+                yo = yops if yops is not None else absint.Obj(
+                    'yaql_operators', operators=dict(table),
+                    name_value_op='=>')
                 try:
                     absint.Interp(repo, mod, lambda n, a, k: (
                         absint.Sym(n),) if n.startswith('re.') else None
@@ -409,7 +427,7 @@ def check_keywords(repo, rep):
                                       init.params()[1]: yo})
                 except (absint.Unsupported, absint._Raise):
                     pass
-                slf.attrs['_operators_table'] = dict(table)
+                slf.attrs.setdefault('_operators_table', dict(table))
             args = {tok: t}
             if len(fi.params()) > 1:
                 args[fi.params()[0]] = slf
